@@ -215,3 +215,58 @@ def run_history(ops=("eval", "min", "max", "cardinality", "solution", "union", "
         total["status"] = "violated"
     total["failures"] = total["failures"][:5]
     return total
+
+
+def run_lub3(w, shard=0, nshards=1, budget_s=200):
+    """least_upper_bound of THREE operands (the arity at which it runs its own rotation loop instead of delegating to pseudo_join): every triple
+    of well-formed strided intervals of the width; the result must contain every member of every operand.  No known-case list: the unchanged
+    tree has no failing triple."""
+    from claripy.backends.backend_vsa import StridedInterval as SI
+    import logging
+    logging.getLogger("claripy.backends.backend_vsa.strided_interval").setLevel(logging.ERROR)
+    t0 = time.time()
+    ivs = list(all_intervals(w, wrapping=True))
+    mems = [_members(*a, w) for a in ivs]
+    evals = distinct = n = 0
+    failures = []
+    exhaustive = True
+    for i, a in enumerate(ivs):
+        if i % nshards != shard:
+            continue
+        if time.time() - t0 > budget_s:
+            exhaustive = False
+            break
+        for j, b in enumerate(ivs):
+            for k, d in enumerate(ivs):
+                evals += 1
+                if a[2] and b[2] and d[2]:
+                    distinct += 1
+                mk = lambda t: SI(bits=w, stride=t[2], lower_bound=t[0], upper_bound=t[1])
+                try:
+                    got = members_of(SI.least_upper_bound(mk(a), mk(b), mk(d)), w)
+                    want = mems[i] | mems[j] | mems[k]
+                    why = None if want <= got else f"loses {sorted(want - got)[:6]}"
+                except Exception as e:  # noqa
+                    why = f"raises {type(e).__name__}"
+                if why:
+                    n += 1
+                    if len(failures) < 5:
+                        failures.append({"label": f"si.least_upper_bound3/exhaustive@w{w}", "kind": "bounded", "witness": {"w": w, "a": list(a), "b": list(b), "d": list(d)},
+                                         "detail": f"least_upper_bound of (lb, ub, stride) {a}, {b}, {d} at {w} bits: {why}"})
+    return {"status": "violated" if n else "ok", "evaluations": evals, "distinct_nontrivial": distinct, "failures": failures, "n_failures": n,
+            "reason": "" if exhaustive else "budget reached (partial)", "exhaustive": exhaustive,
+            "rule": f"least_upper_bound(a, b, d): every triple of well-formed strided intervals of width {w} (shard {shard} of {nshards} by first operand), every member; nontrivial = all three non-constant"}
+
+
+def replay_lub3(task, failure):
+    from claripy.backends.backend_vsa import StridedInterval as SI
+    t = failure["witness"]
+    w = t["w"]
+    mk = lambda x: SI(bits=w, stride=x[2], lower_bound=x[0], upper_bound=x[1])
+    try:
+        r = SI.least_upper_bound(mk(t["a"]), mk(t["b"]), mk(t["d"]))
+        got = members_of(r, w)
+        want = _members(*t["a"], w) | _members(*t["b"], w) | _members(*t["d"], w)
+        return {"reproduced": not want <= got, "text": f"least_upper_bound({mk(t['a'])}, {mk(t['b'])}, {mk(t['d'])}) = {r}: members {sorted(got)} must contain {sorted(want)}"}
+    except Exception as e:  # noqa
+        return {"reproduced": True, "text": f"least_upper_bound of {t} raises {type(e).__name__}: {e}"}
